@@ -196,4 +196,13 @@ def generate(src):
     D.append('def docVariables : List (List UInt8 × List UInt8) := [')
     D.append(',\n'.join(f'  ({lean_bytes(n)}, {lean_bytes(v)})' for n, v in exports))
     D.append(']\n')
+    # `Server::setup`: the calls that build the effective configuration, in source order (the model's `startup` is
+    # `bootstrap ∘ setDefaults`; the harness runs the same two calls itself, so their ORDER inside setup is read here)
+    SV = 'server/mod.rs'
+    setup = fn_body(read(src, SV), 'setup', SV)
+    calls = [c for c in re.findall(r'\b(set_default_values|bootstrap|override_environment_variables_from_\w+|read_system_environment_variables)\s*\(', setup)]
+    if 'set_default_values' not in calls or 'bootstrap' not in calls:
+        raise ExtractError(f'{SV}: Server::setup no longer calls set_default_values and bootstrap directly: {calls}')
+    L.append('/-- the configuration calls of `Server::setup`, in source order -/')
+    L.append('def setupCalls : List String := [' + ', '.join('"%s"' % c for c in calls) + ']\n')
     return [('ConfigTab', '\n'.join(L)), ('ConfigDoc', '\n'.join(D))]
